@@ -597,3 +597,7 @@ impl From<ToolTaskStatus> for ApiToolTaskStatus {
         }
     }
 }
+
+#[cfg(kani)]
+#[path = "/verif/harness/ripd/tasks__mod.rs"]
+mod verif_kani;
